@@ -711,7 +711,7 @@ def gen_branch(rng, allow_block=True):
             continue
         r = rng.random()
         if r < 0.55:
-            out = {"ok": rng.choice(["i5", "s", "t", "z", "None"])} if rng.random() < 0.7 else {"err": {"cls": "Boom", "msg": rng.choice(["bad", "bad", "", "r\u00e9sum\u00e9-\u65e5\u672c", "report-\udcff.csv"])}}
+            out = {"ok": rng.choice(["i5", "s", "t", "z", "None"])} if rng.random() < 0.7 else {"err": {"cls": "Boom", "msg": rng.choice(["bad", "", "", "r\u00e9sum\u00e9-\u65e5\u672c", "report-\udcff.csv"])}}
             acts.append({"a": "step", "out": out, "yield": rng.choice([1, 1, 3, 8])})
             if rng.random() < 0.25:
                 acts[-1]["sleep"] = rng.choice([1, 2, 4])
@@ -937,8 +937,16 @@ def search(ctx, prop, n=400):
         ctx.driver = saved
 
 
+def run_templates(ctx, prop, gens, n_quick, n_thorough):
+    """A guaranteed number of runs of each named template (the random mix of gen_scenario gives each only a share)."""
+    for g in gens:
+        for i in range(ctx.scale(n_quick, n_thorough)):
+            one(ctx, prop, g(ctx.rng), ctx.rng.randrange(1 << 30), component="executor." + g.__name__[4:])
+
+
 def run_c09(ctx):
     run_prop(ctx, "C09")
+    run_templates(ctx, "C09", [gen_timer_order, gen_large_early], 30, 1000)
 
 
 class InjectedFault(RuntimeError):
